@@ -37,7 +37,7 @@ func genC16(r *rng, n int, tier string) []string {
 			if cfg != "-" {
 				items = append(items, cfg)
 			}
-			items = append(items, "si:"+pick(r, []string{"q1", "p,q1", "q1,q3"}), "ei:"+pick(r, []string{"q2", "q2,r", "r,q2", "p"}))
+			items = append(items, "si:"+pick(r, []string{"q1", "p,q1", "q1,q3", "b,q1"}), "ei:"+pick(r, []string{"q2", "q2,r", "r,q2", "p", "b,q2"}))
 			cfg = strings.Join(items, ";")
 		}
 		out = append(out, "m "+cfg+" "+hx(s))
@@ -265,6 +265,9 @@ func checkC16(line string, dist map[string]int) (detail, sig, class string) {
 	// selective probes only (they ask at some of let / return / function), so that two
 	// consecutive questions can fall under different context stacks of the same depth
 	cfg := "si:q1;ei:q2"
+	if (seed>>11)%3 == 0 { // an include-style interceptor runs a second parser of the same builder first
+		cfg = "si:b,q1;ei:b,q2"
+	}
 	switch (seed >> 3) % 4 {
 	case 2:
 		cfg = fmt.Sprintf("si:s%d", 20+(seed>>5)%7)
